@@ -125,6 +125,16 @@ SpecGridVectors ==
     UNION {{[tool |-> "cnfgen", name |-> c[1], valid |-> <<c[2]>> \o a, kinds |-> <<>>, fmt |-> "default",
              dev |-> "graph_spec_grid", pos |-> 0, cls |-> "", opts |-> {}] : a \in [1..c[3] -> SmallArgs]} : c \in Constructions}
 
+\* valid command lines whose formulas have many rows (more than one page of the LaTeX document)
+LargeValid == { <<"and", "20", "20">>, <<"or", "30", "30">>, <<"php", "7", "6">>, <<"count", "8", "2">>,
+                <<"ram", "3", "3", "7">>, <<"op", "6">>, <<"parity", "10">>, <<"vdw", "12", "3", "3">>,
+                <<"cliquecoloring", "5", "3", "2">>, <<"rphp", "4", "4", "3">>, <<"ptn", "40">>,
+                <<"kcolor", "3", "grid", "4", "4">>, <<"tseitin", "first", "grid", "4", "4">>,
+                <<"peb", "pyramid", "7">>, <<"stone", "3", "pyramid", "3">>, <<"cpls", "2", "4", "4">> }
+LargeVectors ==
+    {[tool |-> t, name |-> "", valid |-> a, kinds |-> <<>>, fmt |-> f, dev |-> "large_valid", pos |-> 0, cls |-> "",
+      opts |-> {}] : t \in Tools, a \in LargeValid, f \in Formats}
+
 \* the two single-purpose tools: no sub-command, an input file option
 OtherTools == { [tool |-> "cnfshuffle", sc |-> Sub("", <<"word", "file">>, <<"-i", "@cnf">>,
                                                   {"-p", "-v", "-c", "-q", "--no-polarity-flips"})],
@@ -137,11 +147,12 @@ OtherVectors ==
                  x \in OtherTools}
   \cup {V(x.tool, x.sc, "default", d, 0, "", {}) : x \in OtherTools,
             d \in {"missing_last", "extra_argument", "unknown_option", "help", "seed_word", "output_to_directory"}}
-AllVectors == Vectors \cup OtherVectors \cup RefusalVectors \cup SpecGridVectors
+AllVectors == Vectors \cup OtherVectors \cup RefusalVectors \cup SpecGridVectors \cup LargeVectors
 
 \* dimacs output cannot be asked of pbgen, and transformations are cnfgen's
 Expect(v) ==
-    IF v.dev = "build_refusal" THEN
+    IF v.dev = "large_valid" THEN (IF v.tool = "pbgen" /\ v.fmt = "dimacs" THEN "any" ELSE "must_succeed")
+    ELSE IF v.dev = "build_refusal" THEN
          \* pbgen refuses '-T' and '--output-format dimacs' while parsing: the format is not established yet
          (IF v.tool = "pbgen" /\ (v.fmt = "option_dimacs" \/ \E k \in 1..Len(v.valid) : v.valid[k] = "-T")
           THEN "any" ELSE "any_strict_marker")
